@@ -40,6 +40,12 @@ def run(ctx: Ctx):
   for r in (r1, r2, r3, r4, r5, r8, r12, r13, r14, r15, r16):
     ctx.guard(r)
   from mlmverif.props._queue import model as qmodel
+  from mlmverif.props import c05
+  ctx.include('R-C15-17', '"initialising a new generator or shutting down stops the previous one": the prefetch thread re-reads the'
+              ' stop request between two elements — every cycle of the enqueue loop through put() passes a test of'
+              ' enqueue_done (R-C05-3). A loop that only relies on put() dropping the values keeps ADVANCING the stopped'
+              ' generator to its end, and the stop routine, which joins that thread, returns only then (never for an'
+              ' endless generator)', c05.r3, qmodel(ctx), min_instances=2)
   ctx.include('R-C15-6', '"never leaves a request blocked" / "end marker'
               ' carrying the return value": the prefetch queue\'s monitor'
               ' discipline seen from the server — CV discipline (R-C04-1), lock'
@@ -654,6 +660,8 @@ from mlmverif.selfcheck import B, OK  # noqa: E402
 
 _F = 'chainables/courier_server.py'
 VARIANTS = [
+    B('enqueue-loop-never-rereads-the-stop', 'utils/iter_utils.py',
+      "    while not self.enqueue_done:\n      fetched = False", "    while True:\n      fetched = False", 'R-C15-17'),
     B('revert-stop-outside-the-replacing-critical-section', 'chainables/courier_server.py',
       "    with self._generator_lock:\n      # Stopping the generator in place and installing the new one is one step:\n      # an overlapping request would otherwise overwrite, without stopping it,\n      # the generator this request installs.\n      self._stop_prefetch_locked()\n",
       "    self._stop_prefetch()\n    with self._generator_lock:\n", 'R-C15-16'),
